@@ -233,6 +233,7 @@ class H : public ykmc::Harness {
 public:
     std::vector<LockerProg> lockers;
     int readers = 1;
+    int flaggers = 0; // threads that set root / deleted / bump the counter WITHOUT holding the lock (the tree does this under the parent's lock)
     std::string label;
     node_version64 v;
     uint64_t start_word = 0;
@@ -251,7 +252,7 @@ public:
     std::vector<std::vector<Read>> reads;
 
     std::string name() override { return label; }
-    int nthreads() override { return int(lockers.size()) + readers; }
+    int nthreads() override { return int(lockers.size()) + readers + flaggers; }
     uint64_t shared_digest() override {
         uint64_t w = 0;
         auto b = v.body_.load();
@@ -293,6 +294,17 @@ public:
                 u.ret = ykmc::op_end();
                 unlocks.push_back(u);
             }
+        } else if (tid >= int(lockers.size()) + readers) {
+            int f = tid - int(lockers.size()) - readers;
+            ykmc::op_begin();
+            if (f == 0) {
+                v.atomic_set_root(true);
+                v.atomic_inc_vinsert();
+            } else {
+                v.atomic_set_deleted(true);
+                v.atomic_set_border(true);
+            }
+            ykmc::op_end();
         } else {
             size_t ri = size_t(tid) - lockers.size();
             for (int i = 0; i < 2; ++i) {
@@ -330,9 +342,11 @@ public:
         if (cell != total) fail("version:lost_update", "non-atomic counter under the lock lost an update: " + std::to_string(cell) + " of " + std::to_string(total));
         constexpr uint32_t M = (1u << 29) - 1;
         if (fb.get_locked() || fb.get_inserting_deleting() || fb.get_splitting()) fail("version:dirty_at_end", "lock or dirty bit left set");
-        if (fb.get_vinsert_delete() != ((sb.get_vinsert_delete() + uint32_t(nins)) & M)) fail("version:vinsert_count", "insert counter does not equal the number of flagged unlocks");
+        if (flaggers > 0) nins += 1; // flagger 0 bumps the counter once
+        if (fb.get_vinsert_delete() != ((sb.get_vinsert_delete() + uint32_t(nins)) & M)) fail("version:vinsert_count", "insert counter does not equal the number of flagged unlocks (+ explicit increments)");
         if (fb.get_vsplit() != ((sb.get_vsplit() + uint32_t(nspl)) & M)) fail("version:vsplit_count", "split counter does not equal the number of flagged unlocks");
-        if (fb.get_deleted() != sb.get_deleted() || fb.get_root() != sb.get_root() || fb.get_border() != sb.get_border()) fail("version:flag_clobbered", "deleted/root/border changed");
+        bool want_root = sb.get_root() || flaggers > 0, want_del = sb.get_deleted() || flaggers > 1, want_border = sb.get_border() || flaggers > 1;
+        if (fb.get_deleted() != want_del || fb.get_root() != want_root || fb.get_border() != want_border) fail("version:flag_clobbered", "a deleted/root/border update by a thread that does not hold the lock was lost or a flag changed spontaneously");
         for (auto& rv : reads) {
             for (auto& rd : rv) {
                 if (rd.b.get_locked() || rd.b.get_inserting_deleting() || rd.b.get_splitting()) fail("version:unstable_returned", "get_stable_version returned a locked or dirty word");
@@ -354,6 +368,7 @@ static void scenarios(std::vector<hm::Scenario>& out) {
         int readers;
         uint64_t start;
         const char* nm;
+        int flaggers = 0;
     };
     node_version64_body wrap{};
     wrap.init();
@@ -380,13 +395,16 @@ static void scenarios(std::vector<hm::Scenario>& out) {
             {{{true, false, 1}, {false, true, 1}, {true, true, 1}}, 1, w0, "ins|spl|both+r"},
             {{{true, false, 1}, {false, true, 1}}, 2, w0, "ins|spl+2r"},
             {{{false, false, 2}, {false, false, 2}}, 1, w0, "none2|none2+r"},
+            {{{true, true, 1}}, 0, w0, "both+flag", 1},
+            {{{true, false, 1}, {false, true, 1}}, 0, w0, "ins|spl+flag2", 2},
+            {{{true, true, 1}}, 1, w0 | (uint64_t((1u << 29) - 1)), "both+flag+r@wrap", 1},
     };
     for (auto& c : cfgs) {
         hm::Scenario sc;
         sc.name = std::string("version/") + c.nm;
         sc.sigclass = "version";
-        sc.bound_quick = c.l.size() + size_t(c.readers) > 3 ? 2 : 3;
-        bool small = c.l.size() == 2 && c.readers == 1 && c.l[0].rounds + c.l[1].rounds == 2;
+        sc.bound_quick = c.l.size() + size_t(c.readers) + size_t(c.flaggers) > 3 ? 2 : 3;
+        bool small = (c.l.size() == 2 && c.readers == 1 && c.l[0].rounds + c.l[1].rounds == 2) || (c.l.size() == 1 && c.flaggers == 1);
         sc.bound_thorough = small ? 64 : 5;
         sc.thorough_single_pass = small;
         sc.stateful = true;
@@ -397,6 +415,7 @@ static void scenarios(std::vector<hm::Scenario>& out) {
             auto h = std::make_unique<H>();
             h->lockers = cc.l;
             h->readers = cc.readers;
+            h->flaggers = cc.flaggers;
             h->start_word = cc.start;
             h->label = nm;
             return h;
